@@ -124,17 +124,22 @@ class MarginLoans(base.LendingStrategy):
             acc_balances.balances, acc_balances.holds, acc_balances.borrowed
         )
 
+    def _calculate_used_margin(self, updated_borrowed: ValueMapDict) -> Decimal:
+        assert self._exchange_ctx, "Not yet connected with the exchange"
+
+        margin_requirements = ValueMap(
+            {symbol: self.get_conditions(symbol).margin_requirement for symbol in updated_borrowed}
+        )
+        used_margin_by_symbol = margin_requirements * updated_borrowed
+        return self._exchange_ctx.prices.convert_value_map(used_margin_by_symbol, self._quote_symbol)
+
     def _calculate_margin_level(
             self, updated_balances: ValueMapDict, updated_holds: ValueMapDict, updated_borrowed: ValueMapDict
     ) -> Decimal:
         assert self._exchange_ctx and self._loan_mgr, "Not yet connected with the exchange"
 
         # Calculate used margin.
-        margin_requirements = ValueMap(
-            {symbol: self.get_conditions(symbol).margin_requirement for symbol in updated_borrowed}
-        )
-        used_margin_by_symbol = margin_requirements * updated_borrowed
-        used_margin = self._exchange_ctx.prices.convert_value_map(used_margin_by_symbol, self._quote_symbol)
+        used_margin = self._calculate_used_margin(updated_borrowed)
         if used_margin == Decimal(0):
             return Decimal(0)
 
@@ -169,7 +174,13 @@ class MarginLoans(base.LendingStrategy):
             return
 
         margin_level = self._calculate_margin_level(updated_balances, updated_holds, updated_borrowed)
-        if margin_level > Decimal(0) and margin_level < Decimal(100):
+        # A margin level of 0 means that either there is no used margin, or that there is no equity at all. The later
+        # is not acceptable when borrowing.
+        borrowing = any(
+            amount > acc_balances.borrowed.get(symbol, Decimal(0)) for symbol, amount in updated_borrowed.items()
+        )
+        no_equity = margin_level == Decimal(0) and self._calculate_used_margin(updated_borrowed) > Decimal(0)
+        if (margin_level > Decimal(0) and margin_level < Decimal(100)) or (borrowing and no_equity):
             raise errors.NotEnoughBalance(f"Margin level too low {margin_level}")
 
 
